@@ -277,14 +277,14 @@ def tlc_generate(d, name, base, consts, cfgbody, out_path, defaults=None, timeou
     return n, dist, secs
 
 
-def run_harness(inp, outp, cli=False, fmt_hooks=False, threads=None, timeout=900):
+def run_harness(inp, outp, cli=False, fmt_hooks=False, threads=None, timeout=900, env=None):
     cmd = [CHK, "run", inp, outp, "--threads", str(threads or WORKERS)]
     if cli:
         cmd += ["--cli", CLI_BIN]
     if fmt_hooks:
         cmd += ["--fmt-hooks"]
     t0 = time.time()
-    r = sh(cmd, timeout=timeout)
+    r = sh(cmd, timeout=timeout, env=env)
     if r.returncode != 0:
         raise ToolError("harness run failed rc=%d: %s" % (r.returncode, r.stdout[-2000:]))
     return time.time() - t0
